@@ -27,6 +27,24 @@ Fixpoint seq_nodes (sub : done -> node -> cres) (ns : list node) (d : done) : cr
   | x :: ns' => then_ (sub d x) (seq_nodes sub ns')
   end.
 
+(* how many items iterating the CONSTRUCTED key_types object yields, when the tree determines it: a list / tuple has as
+   many items as children; a dict (only in hand-made archives) has as many keys as entries it constructs itself *)
+Fixpoint kt_len (kt : node) : option nat :=
+  match kt with
+  | Node hk ks =>
+      match h_kind hk, ks with
+      | KList, [Leaf _ LEmptyList] => Some O
+      | KList, _ => Some (length ks)
+      | KDict, kt' :: vals' =>
+          match kt_len kt' with
+          | Some k => Some (Nat.min k (length vals'))
+          | None => Some (length vals')
+          end
+      | _, _ => None
+      end
+  | _ => None
+  end.
+
 (* _construct of each kind; `sub d n` constructs child n *)
 Definition body (h : hdr) (subs : list node) (sub : done -> node -> cres) (d : done) : cres :=
   let seq := seq_nodes sub in
@@ -39,15 +57,7 @@ Definition body (h : hdr) (subs : list node) (sub : done -> node -> cres) (d : d
          as the key_types list has entries *)
       match subs with
       | kt :: vals =>
-          let n := match kt with
-                   | Node hk ks =>
-                       match h_kind hk, ks with
-                       | KList, [Leaf _ LEmptyList] => O
-                       | KList, _ => length ks
-                       | _, _ => length vals
-                       end
-                   | _ => length vals
-                   end in
+          let n := match kt_len kt with Some k => k | None => length vals end in
           then_ (own d) (seq (kt :: firstn n vals))
       | [] => own d
       end
